@@ -48,3 +48,6 @@ package ip
 //@   ensures cidrOK(cidr) && cidrIs4(cidr) && ^cidrMask4(cidr) >= 2 ==> result == ipString4((cidrNet4(cidr) | ^cidrMask4(cidr)) - 2)
 //@   ensures cidrOK(cidr) && !cidrIs4(cidr) && ^cidrMask16(cidr) < 2 ==> result == ""
 //@   ensures cidrOK(cidr) && !cidrIs4(cidr) && ^cidrMask16(cidr) >= 2 ==> result == ipString16((cidrNet16(cidr) | ^cidrMask16(cidr)) - 2)
+
+//@ # the reserved gateway of a subnet, as a function of its CIDR string (exactly the case split DeriveGatewayIP is proved against)
+//@ pure func gwOf(cidr string) string = ite(cidr == "" || !cidrOK(cidr), "", ite(cidrIs4(cidr), ite(^cidrMask4(cidr) < 2, "", ipString4((cidrNet4(cidr) | ^cidrMask4(cidr)) - 2)), ite(^cidrMask16(cidr) < 2, "", ipString16((cidrNet16(cidr) | ^cidrMask16(cidr)) - 2))))
